@@ -407,6 +407,15 @@ def run(ctx):
                     mode, B, U0, t["crashes"], clause, t["outcome"], [e["ev"] for e in t["events"]][-6:])
                 ctx.violation(what, {"kind": "schedule", "mode": mode, "B": B, "U0": U0, "crashes": t["crashes"], "clause": clause})
                 shown += 1
+        if not bad:
+            from harness.tracecheck import selftest
+
+            def corrupt(t):
+                i = [k for k, e in enumerate(t["events"]) if e["ev"] == "publish"][2]
+                del t["events"][i]
+                return "one logged publish event removed (as if the hook had not fired)"
+            selftest(ctx, "TraceOrchestrator", traces[0], corrupt, decide=None, next_="TNext", init="TInit", constraint="C19Clauses",
+                     constants=consts(mode, B, U0, max_iter, 99, strict=False))
         # conformance of the script's control flow to Orchestrator.tla: binds the design-level TLC result to this code
         before = ctx.traces
         drift = validate(ctx, "TraceOrchestrator", traces, decide=None, next_="TNext", init="TInit", constraint="C19Clauses",
